@@ -200,14 +200,28 @@ def run(ctx):
         segs = [it.construct('path.Line', *cpoints(2, 'L')), it.construct('path.QuadraticBezier', *cpoints(3, 'Q')),
                 it.construct('path.CubicBezier', *cpoints(4, 'C'))]
         p = it.construct('path.Path', *segs)
+        # the original has been measured: its caches are populated
+        fr = [Rat.sym('fr%d' % k) for k in range(3)]
+        p.attrs['_length'] = Rat.sym('LTOT')
+        p.attrs['_lengths'] = list(fr)
+        if '_length_tol' in p.cls.class_attrs:
+            p.attrs['_length_tol'] = (Rat.sym('err'), Rat.sym('md'))
         r = it.call_method(p, 'reversed')
-        return [it.call_method(s, 'point', 1 - T) for s in segs], [it.call_method(s, 'point', T) for s in it.iterate(r)], r
+        return [it.call_method(s, 'point', 1 - T) for s in segs], [it.call_method(s, 'point', T) for s in it.iterate(r)], r, fr
 
     def judge_prev(v):
-        orig, rev, r = v
+        orig, rev, r, fr = v
         if not isinstance(r, Obj) or r.cls.name != 'Path' or len(rev) != 3:
             return False, 'result is not a 3-segment Path'
-        return decide_all_equal([('segment %d' % i, rev[i], orig[2 - i]) for i in range(3)])
+        ok, d = decide_all_equal([('segment %d' % i, rev[i], orig[2 - i]) for i in range(3)])
+        if ok is not True:
+            return ok, d
+        # a cache handed to the reversed copy must describe the reversed segment order
+        if r.attrs.get('_length') is not None and r.attrs.get('_lengths') is not None:
+            got = r.attrs['_lengths']
+            if len(got) != 3 or not all(to_rat(got[i]).equals(fr[2 - i]) for i in range(3)):
+                return False, 'the reversed copy inherits the length fractions in the original order: point(T)/T2t on it use the wrong segments'
+        return True, ''
     ob('R09.4').run(fpr, 'Path(L,Q,C).reversed() == (C.rev, Q.rev, L.rev)', th_prev, judge_prev)
 
     # ------------------------------------------------------------ R09.7 Path.cropped piece table
